@@ -90,7 +90,7 @@ SameOutside(bpp, order, b1, b2, i) ==
 \* The same layout read off the prose of the documentation: the buffer as a string of bits.
 \* Msb0: bytes left to right, most significant bit first, the pixel's own most significant bit
 \* first.  Lsb0: least significant bit first, the pixel's least significant bit first.
-MsbBit(buf, q) == (buf[q \div 8 + 1] \div 2 ^ (7 - q % 8)) % 2
+MsbBit(buf, q) == (buf[q \div 8 + 1] \div 2 ^ (7 - (q % 8))) % 2
 LsbBit(buf, q) == (buf[q \div 8 + 1] \div 2 ^ (q % 8)) % 2
 DocLoadBits(bpp, order, buf, i) ==
   LET S[t \in 0..bpp] ==
@@ -110,8 +110,12 @@ NumOf(v) == LET S[k \in 0..Len(v)] == IF k = 0 THEN 0 ELSE S[k - 1] + v[k] * 256
 -----------------------------------------------------------------------------
 (* ABSTRACT: the iterator of a RawDataSlice is the sequence load(0), load(1), ...;            *)
 (* position pos in 0..N, N = PixelCount.  An index or skip count too large for a TLC integer  *)
-(* is represented by Huge (anything >= 2^30 is beyond every buffer considered here).          *)
-Huge == 1073741824
+(* is represented by Huge = 2^28 (beyond every buffer considered here; 4 * Huge still fits a  *)
+(* TLC integer, so the transcribed `index * n` can be evaluated).  The Rust code multiplies   *)
+(* the index by the pixel size without a check (load_store.rs:73,92,102,125,135,154): for an  *)
+(* index above usize::MAX / n that is an overflow panic (debug) or a wrapped index (release); *)
+(* this corner is outside the model and recorded as a `panic` event by the harness.           *)
+Huge == 268435456
 CapAdd(a, b) == IF a >= Huge \/ b >= Huge THEN Huge ELSE Min(a + b, Huge)
 
 \* next(): item at pos, advance if there was one.  nth(j): item at pos + j, continue behind it;
